@@ -78,6 +78,44 @@ def subforests(t):
     return []
 
 
+def slot_in_fill(f, inside=False):
+    """a {% slot %} written inside the body of a fill (of a component tag of this template)"""
+    for t in f:
+        if t[0] == "S" and inside:
+            return True
+        if t[0] == "C":
+            if any(slot_in_fill(b, True) for _s, b, _e in t[3]):
+                return True
+        elif any(slot_in_fill(x, inside) for x in subforests(t)):
+            return True
+    return False
+
+
+def py_targets(lib, page, api):
+    out = set()
+
+    def go(f):
+        for t in f:
+            if t[0] == "P":
+                out.add(t[1])
+            for x in subforests(t):
+                go(x)
+    go(page)
+    for f, _m in lib:
+        go(f)
+    if api != "template":
+        out.add(page[0][1])
+    return out
+
+
+def outside_domain(lib, page, mode, api):
+    """In "django" mode a component rendered from Python (outer_context None) resolves a slot that it wrote inside the
+    body of a child's fill against the CHILD's fills (slots.py: the 'outer_context is None' index search) - endless
+    rendering or RecursionError.  Which fill a slot resolves to is property C01's subject; such programs are rendered
+    in "isolated" mode here."""
+    return mode == "django" and any(slot_in_fill(lib[k][0]) for k in py_targets(lib, page, api))
+
+
 def has_py(f):
     return any(t[0] == "P" or any(has_py(x) for x in subforests(t)) for t in f)
 
@@ -223,8 +261,29 @@ def ensure_dyn():
     _dyn_registered[0] = True
 
 
-def render_impl(lib, page, mode, api):
+class RenderTimeout(BaseException):
+    pass
+
+
+def _on_alarm(*a):
+    raise RenderTimeout()
+
+
+def render_impl(lib, page, mode, api, limit=60):
     """Returns (html or None, exception text or None, log, sizes of the two global tables afterwards)."""
+    import signal
+    old_handler = signal.signal(signal.SIGALRM, _on_alarm)
+    signal.alarm(limit)
+    try:
+        return _render_impl(lib, page, mode, api)
+    except RenderTimeout:
+        return None, "no result after %d s" % limit, list(LOG), None
+    finally:
+        signal.alarm(0)
+        signal.signal(signal.SIGALRM, old_handler)
+
+
+def _render_impl(lib, page, mode, api):
     import djsetup
     import django_components.perfutil.component as Pm
     from django.template import Context, Template
@@ -592,6 +651,10 @@ def chain_program(depth, shared):
 
 # ------------------------------------------------------------------------------------------------
 def run_case(chk, lib, page, mode, api, kind, terms, cases, ids="counter"):
+    if outside_domain(lib, page, mode, api):
+        mode = "isolated"
+        chk.extra["django_python_root_with_slot_in_fill_rendered_isolated_instead"] = \
+            chk.extra.get("django_python_root_with_slot_in_fill_rendered_isolated_instead", 0) + 1
     html_out, exc, log, tabs = render_impl(lib, page, mode, api)
     case = {"lib": lib, "page": page, "mode": mode, "api": api}
     if ids != "counter":
@@ -599,7 +662,7 @@ def run_case(chk, lib, page, mode, api, kind, terms, cases, ids="counter"):
     key = (repr(lib), repr(page), mode, api, ids)
     if html_out is None:
         chk.count(key, False, kind=kind)
-        chk.fail("c14-render-raises" if exc != "RecursionError" else "c14-recursion-limit",
+        chk.fail("c14-render-hangs" if exc.startswith("no result") else "c14-render-raises" if exc != "RecursionError" else "c14-recursion-limit",
                  "render raised %s" % exc, dict(case, exception=exc))
         return
     logged = [l[0] for l in log]
